@@ -10,7 +10,9 @@ EXPLANATION = ("Writer / reader agreement on the tables attribute: both generato
                "constraint that is also appended to the class-constraint list, or 0), one row per outer iteration, label rows by the first list and "
                "columns by the second, and store a DataFrame under the condition name; the reader maps each cell to its multiplier in place; names are "
                "built from (function, condition, outer sample, inner sample); every store into the tables attribute anywhere holds a DataFrame; a family "
-               "that emits class constraints outside the generators still names and tables them.")
+               "that emits class constraints outside the generators still names and tables them."
+               " R-HOOKTABLE: the hook of every family unrolled on its model: every stored table has a column (row) per sample of a recorded list of the "
+               "function and a Constraint object of its own in every cell.")
 TRUSTED = ["CPython ast", "pandas: DataFrame(rows, columns=..., index=...) keeps row / column order"]
 ASSUMPTIONS = ["multiplier values themselves are C01's business"]
 
